@@ -270,6 +270,10 @@ class DbSuite:
             verdicts = lib.run_sharded(lib.DRIVER, "dumpcheck", dc, workdir, tag + "d")
             for i, (c, opi, dump, scan) in enumerate(dumps):
                 v = verdicts.get("d%d" % i, "")
+                if "work=0" in v:
+                    prop.append({"case": c, "impl": lib.trunc(dump[dump.find("]mem["):], 600), "spec": "work_inv_dump (Work.v)", "model": lib.trunc(v, 200),
+                                 "detail": "structural dump at op %d: pending background work (immutable memtable / manual compaction / version needs compaction) with no compaction scheduled and no bad state" % opi, "at": opi})
+                    continue
                 if "shape=1" not in v or "getpath=1" not in v:
                     if "DRIVER-ERROR" in v:
                         corr.append({"case": c, "impl": lib.trunc(dump, 1500), "model": lib.trunc(v, 500), "kind": "dump-unparsable"})
